@@ -1,7 +1,7 @@
 CONSTANTS
   N = 3
   Graphs <- ConnectedShapes
-  Faults = {"start", "run", "exit", "stop"}
+  Faults = {"start", "exit"}
   AwaitStoppingInner = TRUE
   LateStart = FALSE
 SPECIFICATION LiveSpec
